@@ -31,7 +31,7 @@ ASSUMPTIONS = [
     "an earlier include field means is not stated by the property",
     "the format layer (C04) is trusted to write the files the harness prepares",
 ]
-REQUIRED = ["format-options", "cwd-decoy", "mode:merge", "mode:load", "mode:missing", "scope:root", "scope:nested", "scope:deep", "chain", "chain:named-by-included-file", "link:same", "link:nested", "schema-extended-after-a-load", "path:relative",
+REQUIRED = ["format-options", "cwd-decoy", "mode:merge", "mode:load", "mode:missing", "scope:root", "scope:nested", "scope:deep", "chain", "chain:named-by-included-file", "link:same", "link:nested", "schema-extended-after-a-load", "nested-scope-only-from-included-file", "path:relative",
             "path:absolute", "conflict:map-vs-scalar"] + ["fmt:" + f for f in trees.FORMATS]
 LEVEL_TEXT = (
     "Generated tree pairs/chains and real include files with a 10-line reference merge and a metamorphic "
@@ -70,14 +70,15 @@ def strategy(tier):
     scope = st.sampled_from(["root", "nested", "deep"])
     load = st.fixed_dictionaries({
         "mode": st.just("load"), "fmt": st.sampled_from(trees.FORMATS), "base": _tree(depth),
-        "includes": st.lists(st.fixed_dictionaries({"scope": scope, "slot": st.integers(0, 1), "tree": _tree(depth - 1),
+        "includes": st.lists(st.fixed_dictionaries({"scope": st.one_of(scope, st.just("root")), "slot": st.integers(0, 1), "tree": _tree(depth - 1),
                                                     "how": st.sampled_from(["relative", "relative-sub", "absolute"])}), min_size=1, max_size=4),
         "startdir": st.sampled_from(["inc", "inc/more", None]),
         "prestate": _tree(1),
         "fopts": st.sampled_from([None, None, "app"]),  # yaml root_key / xml root_tag passed to loads() and used for every file
         "late": st.sampled_from([None, None, "chain", "item"]),
-        "links": st.lists(st.fixed_dictionaries({"from": st.integers(0, 3), "to": st.integers(0, 3), "where": st.sampled_from(["same", "nested"]),
-                                                 "slot": st.integers(0, 1)}), max_size=2),
+        "drop_scope": st.booleans(),
+        "links": st.integers(0, 5).flatmap(lambda k: st.lists(st.fixed_dictionaries({"from": st.integers(0, 3), "to": st.integers(0, 3), "where": st.sampled_from(["same", "nested", "nested"]),
+                                                                                      "slot": st.integers(0, 1)}), min_size=min(k, 3), max_size=min(k, 3))),
     })
     missing = st.fixed_dictionaries({
         "mode": st.just("missing"), "fmt": st.sampled_from(trees.FORMATS), "base": _tree(2), "scope": scope,
@@ -310,6 +311,11 @@ def run_case(case, R):
             key = "include2" if link["where"] == "same" else INC_KEYS[link["slot"]]
             _ensure_scope(files[refs[src][1]], rel)[key] = refs[dst][1]
             R.label("link:" + link["where"])
+        if case.get("drop_scope") and any(l["where"] == "nested" for l in case.get("links", [])):
+            # the including document itself has nothing at the nested scope: the map there (and the include it names)
+            # comes entirely from a file included at the enclosing scope
+            base.pop("sub", None)
+            R.label("nested-scope-only-from-included-file")
         for i, inc in enumerate(case["includes"]):
             full, ref, how = refs[i]
             R.label("path:" + ("absolute" if how == "absolute" else "relative"))
